@@ -263,13 +263,19 @@ def columnsOf (j : JVal) : Except PyExc (List (Str × JVal)) := do
   | .obj kvs => pure kvs
   | _ => throw .attributeError
 
+/-- `f"{col['unit']}"` -/
+def unitOf (kv : Str × JVal) : Except PyExc Str := do fstr (← member sUnit kv.2)
+
+/-- `col["values"]` -/
+def valuesOf (kv : Str × JVal) : Except PyExc JVal := member sValues kv.2
+
 /-- the `lines_json` grid of `json_data_to_table`, in its evaluation order -/
 def toGrid (fi : Int → Str) (j : JVal) : Except PyExc (List Row) := do
   let name ← fstr (← member sName j)
   let dests ← joinItems (← member sDestinations j)
   let cols ← columnsOf j
-  let units ← cols.mapM (fun kv => do fstr (← member sUnit kv.2))
-  let data ← cols.mapM (fun kv => member sValues kv.2)
+  let units ← cols.mapM unitOf
+  let data ← cols.mapM valuesOf
   let cells ← data.mapM (valueCells fi)
   pure ([[Cell.str ("**".toList ++ name)], [Cell.str (joinWith ' ' dests)],
          cols.map (fun kv => Cell.str kv.1), units.map Cell.str] ++ zipStar cells)
